@@ -10,7 +10,7 @@ theorem execExport_state (c : Bytes) (kv : KVS) (φ : Faults) : (execExport like
   unfold execExport
   split
   · rfl
-  · split; rfl
+  · split <;> rfl
   · rfl
 
 theorem exec_err_state (op : Op) (kv : KVS) (φ : Faults)
